@@ -148,6 +148,13 @@ def run(chk, binary):
                         continue
                     piece = t[len(old):]
                 pos = find_removed(before, after, piece)
+                if not pos and piece.endswith("\n"):
+                    # a linewise register always ends in a newline: it is supplied for the unterminated last line,
+                    # and cc / cj / Vc leave the last line's own break in the text
+                    cand = find_removed(before, after, piece[:-1])
+                    pos = [i for i in cand if verb == "Change" or (i + len(piece) - 1 == len(before) and not before.endswith("\n"))]
+                    if pos:
+                        piece = piece[:-1]
                 if not pos:
                     chk.violation("spec:the register does not hold exactly the removed text / text outside the span changed",
                                   dict(case0, verb=verb, before=before, after=after, register=name or '"', register_text=t))
@@ -174,7 +181,8 @@ def run(chk, binary):
                     if piece is None:
                         chk.violation("spec:upper-case register did not append", dict(case0, register=name, before=old, after=t))
                         continue
-                if piece not in before:
+                linewise_tail = piece.endswith("\n") and not before.endswith("\n") and before.endswith(piece[:-1])
+                if piece not in before and not linewise_tail:
                     chk.violation("spec:yanked text is not a contiguous stretch of the buffer", dict(case0, register_text=t, buffer=before))
             elif verb.startswith("Put"):
                 kind, t = reg_text(regs_before, name)
@@ -196,7 +204,7 @@ def run(chk, binary):
                     chk.violation("spec:a case operator changed the length of the text", dict(case0, verb=verb, before=before, after=after))
                     continue
                 for x, y in zip(before, after):
-                    if x != y and not (x.isascii() and x.isalpha() and y.isascii() and y.isalpha()):
+                    if x != y and not (x.isalpha() and y.isalpha() and (x.lower() == y.lower() or verb == "Rot13")):
                         chk.violation("spec:a case operator changed something that is not a letter", dict(case0, verb=verb, before=before, after=after))
                         break
             elif verb.startswith("ReplaceCharInplace"):
